@@ -573,6 +573,8 @@ class Engine:
                 eng.seen.append((ref, json.loads(json.dumps(dict(stage.context)))))
                 act = script(ref, i)
                 if act.get("jump"):
+                    if act.get("outputs"):
+                        return TaskResult.jump_to(act["jump"], outputs=act["outputs"])
                     return TaskResult.jump_to(act["jump"])
                 return TaskResult.success(outputs=act.get("outputs") or {})
 
@@ -751,6 +753,57 @@ def engine_case(ctx, case: dict, lines, inputs, impl):
     ctx.tag(f"engine-status={status}", f"engine-stages={n}")
 
 
+def gen_fwdjump_case(rng) -> dict:
+    """chain s0 -> s1 -> ... -> s(n-1); stage `src` jumps FORWARD to `tgt` (> src + 1) with outputs: the source ends SUCCEEDED
+    and stays an ancestor of the target, so what it published must reach the target and everything behind it"""
+    n = rng.randint(4, 6)
+    src = rng.randint(0, n - 3)
+    tgt = rng.randint(src + 2, n - 1)
+    outs = gen_outs(rng, n)
+    for i in range(src + 1, tgt):
+        outs[i] = {}                      # skipped stages publish nothing
+    if not outs[src]:
+        outs[src] = {rng.choice(KEYS): gen_atom(rng, "int")}
+    if src > 0 and rng.random() < 0.7:      # a farther ancestor publishing the same key: the nearer one (the jump source) wins
+        k = rng.choice(sorted(outs[src]))
+        outs[rng.randrange(src)][k] = gen_value(rng, allow_dict=False)
+    return {"n": n, "src": src, "tgt": tgt, "outs": outs, "refs": rand_refs(rng, n)}
+
+
+def fwdjump_case(ctx, case: dict) -> None:
+    n, src, tgt, outs, refs = case["n"], case["src"], case["tgt"], case["outs"], case["refs"]
+    reqs = [[] if i == 0 else [i - 1] for i in range(n)]
+
+    def script(ref, i):
+        k = refs.index(ref)
+        if k == src:
+            return {"jump": refs[tgt], "outputs": outs[src]}
+        return {"outputs": outs[k]}
+
+    eng = Engine(script)
+    try:
+        wf = build_workflow(refs, reqs, None)
+        res = eng.run(wf)
+        seen = {r: c for r, c in eng.seen}
+        status = res.status.name
+        stage_status = {st.ref_id: st.status.name for st in res.stages}
+    finally:
+        eng.close()
+    ctx.count({"fwdjump": [n, src, tgt]}, nontrivial=True)
+    ctx.tag(f"fwdjump-status={status}")
+    rep = {"kind": "fwdjump", "case": case}
+    if status != "SUCCEEDED" or any(stage_status.get(refs[i]) != "SKIPPED" for i in range(src + 1, tgt)):
+        ctx.tag("fwdjump-unexpected-run")
+        return
+    for s in range(tgt, n):
+        if refs[s] not in seen:
+            ctx.violation(f"forward jump {src}->{tgt}: stage {s} never executed although the workflow SUCCEEDED", "fwdjump:stage-not-run", rep)
+            continue
+        handed = {k: v for k, v in strip_reserved(seen[refs[s]]).items()}
+        check_merged_property(ctx, f"context handed to stage {s} behind a forward jump {src}->{tgt}", reqs, outs, s, handed, {},
+                              replay={**rep, "target": s})
+
+
 # ------------------------------------------------------------------------------------------------
 # entry points
 # ------------------------------------------------------------------------------------------------
@@ -775,6 +828,8 @@ def dispatch(ctx, body, lines, inputs, impl, env):
         plan_case(ctx, env, body["case"], lines, inputs, impl)
     elif kind == "engine":
         engine_case(ctx, body["case"], lines, inputs, impl)
+    elif kind == "fwdjump":
+        fwdjump_case(ctx, body["case"])
     elif kind == "reducer":
         from stabilize.reducers import get_reducer
 
@@ -839,6 +894,10 @@ def run(ctx) -> None:
     if lines:
         ctx.sample({"suite": "engine-dag", "line": lines[0], "impl": impl[0]})
     ctx.correspond("engine-dag", inputs, lines, impl)
+
+    # forward jumps that carry outputs (implementation + the ancestor-merge oracle; the chain shape needs no model line)
+    for _ in range(ctx.n(8, 60)):
+        fwdjump_case(ctx, gen_fwdjump_case(rng))
 
 
 def search(ctx) -> None:
